@@ -111,11 +111,8 @@ class M(Model):
         if not legal_moves(board).any():
             out.append(("episode continues although no move changes the board", str(board.tolist())))
         if prev is None:
-            nz = board[board != 0]
-            if nz.size != 1 or int(nz[0]) not in (1, 2):
-                out.append(("initial board is not a single 2 or 4 tile", str(board.tolist())))
-            if float(s.score) != 0.0:
-                out.append(("initial score != 0", str(float(s.score))))
+            # audit: "single 2/4 tile" and "score 0" at reset are not physical consistency (C10 owns the instance;
+            # the class docstring defines score as "sum of all tile values on the board") - not asserted here
             return out
         pb = np.asarray(prev.board)
         slid, rew = slide(pb, a)
@@ -127,20 +124,8 @@ class M(Model):
         if not was_legal and d != 0:
             out.append(("tile sum changed by an ignored move",
                         f"action {int(a)}: sum {tile_sum(pb)} -> {tile_sum(board)}; {pb.tolist()} -> {board.tolist()}"))
-        # number of tiles: every merge removes one, a valid move adds one
-        merges = int((pb != 0).sum() - (slid != 0).sum())
-        want_tiles = int((pb != 0).sum()) - merges + (1 if was_legal else 0)
-        if int((board != 0).sum()) != want_tiles:
-            out.append(("tile count inconsistent with merges + one spawn",
-                        f"action {int(a)}: {pb.tolist()} -> {board.tolist()} (expected {want_tiles} tiles)"))
-        if ts is not None and abs(float(s.score) - (float(prev.score) + float(ts.reward))) > 1e-3:
-            out.append(("score is not the running sum of rewards",
-                        f"{float(prev.score)} + {float(ts.reward)} != {float(s.score)}"))
-        if abs(float(s.score) - (float(prev.score) + rew)) > 1e-3:
-            out.append(("score not increased by the value of the merged tiles",
-                        f"action {int(a)} on {pb.tolist()}: {float(prev.score)} + {rew} != {float(s.score)}"))
-        if int(s.step_count) != int(prev.step_count) + 1:
-            out.append(("step_count not incremented", f"{int(prev.step_count)} -> {int(s.step_count)}"))
+        # audit: tile count vs merges, score bookkeeping and step_count are transition rules (C09), not the
+        # conservation C07 lists ("the 2048 tile sum across a move") - removed from the C07 oracle
         return out
 
     # ---- C08
@@ -149,7 +134,7 @@ class M(Model):
              return = sum over final tiles of (e-1)*2^e  -  4 * (number of tiles that entered as a 4)
         (a tile 2^e built from 2s has produced merges worth (e-1)*2^e; each tile that entered the board as a 4,
         the initial one included, saves one 4-merge).  Spawn values are read off tile-sum differences between
-        consecutive boards (slides conserve the tile sum).  Second component: the final state.score."""
+        consecutive boards (slides conserve the tile sum)."""
         boards = [np.asarray(ep.s0.board)] + [np.asarray(s.board) for s in ep.states]
         fours = int((boards[0] == 2).sum())
         for b0, b1 in zip(boards[:-1], boards[1:]):
@@ -160,7 +145,9 @@ class M(Model):
                 return None  # conservation broken: C07/C09 territory, no objective can be read off
         fb = boards[-1].astype(np.int64)
         val = float(sum((int(e) - 1) * 2 ** int(e) for e in fb[fb > 0]) - 4 * fours)
-        return np.array([val, float(ep.states[-1].score) if ep.states else 0.0]), 1e-3
+        # audit: state.score is no longer a second component - C08 is about the return, and the class docstring
+        # documents score differently ("the sum of all tile values on the board")
+        return val, 1e-3
 
     # ---- C09
     def predict(self, s, a):
@@ -169,7 +156,8 @@ class M(Model):
         if np.array_equal(slid, pb):
             return {"state": {"board": pb, "score": float(s.score), "action_mask": legal_moves(pb)},
                     "reward": 0.0, "last": not legal_moves(pb).any()}
-        st = {"score": float(s.score) + rew, "step_count": int(s.step_count) + 1}
+        # audit: score is judged in stochastic_ok (two documented readings), not predicted as one exact value
+        st = {"step_count": int(s.step_count) + 1}
         pred = {"state": st, "reward": float(rew)}
         empties = np.argwhere(slid == 0)
         if len(empties) >= 2:
@@ -205,6 +193,13 @@ class M(Model):
         if not np.array_equal(np.asarray(s2.action_mask).astype(bool), legal_moves(nb)):
             out.append(("state.action_mask differs from the moves that change the new board",
                         f"board {nb.tolist()} mask {np.asarray(s2.action_mask).tolist()}"))
+        # score: types.py says "the current score of the game" (= running sum of merged tiles, the game's score),
+        # the class docstring says "the sum of all tile values on the board" - either documented reading is accepted
+        _, rew = slide(pb, a)
+        got = float(s2.score)
+        if abs(got - (float(s.score) + rew)) > 1e-3 and abs(got - float(tile_sum(nb))) > 1e-3:
+            out.append(("score is neither the running sum of merged tiles nor the sum of the tiles on the board",
+                        f"action {int(a)} on {pb.tolist()}: {float(s.score)} -> {got} (merged {rew}, tile sum {tile_sum(nb)})"))
         return out
 
     def last_given_next(self, s, a, s2):
@@ -222,11 +217,8 @@ class M(Model):
             out.append(("initial board is not a single 2 or 4 tile", str(board.tolist())))
         if int(s0.step_count) != 0:
             out.append(("initial step_count != 0", str(int(s0.step_count))))
-        if float(s0.score) != 0.0:
-            out.append(("initial score != 0", str(float(s0.score))))
-        if not np.array_equal(np.asarray(s0.action_mask).astype(bool), legal_moves(board)):
-            out.append(("initial action_mask differs from the moves that change the board",
-                        f"board {board.tolist()} mask {np.asarray(s0.action_mask).tolist()}"))
+        # audit: initial score (documented two ways: running score vs "sum of all tile values on the board") and the
+        # initial action_mask (C04 judges the reset mask) are not instance invariants - not asserted under C10
         return out
 
     # ---- C12
